@@ -98,6 +98,14 @@ def check(run):
         b4 = run.borrow("C04", why="the engine verdict is the precedence formula over the per-list hits")
         run.guard("C01.via.C04.2.precedence", cfg, lambda: _C04.rule_precedence(b4, F, cfg))
         run.guard("C01.via.C04.1.routing", cfg, lambda: _C04.rule_routing(b4, F, cfg))
+        from . import C02 as _C02s   # lazy: C02 borrows from this module
+        bsep = run.borrow("C02", only=r"replacement:ANCHOR", why="a rule is reached through the bucket of one of its tokens: wherever its pattern can "
+                                     "match, the URL must have that token, so `^` may accept no byte the request tokenizer keeps inside a token "
+                                     "(letters, digits, `%` -- the bytes of non-ASCII letters included)")
+        run.guard("C01.via.C02.3.regex-translation", cfg, lambda: _C02s.rule_translation(bsep, F, cfg))
+        b4c = run.borrow("C04", why="which rules are live: a rule is dropped from the index exactly when some `$badfilter` line of "
+                                    "the list names it, wherever that line stands")
+        run.guard("C01.via.C04.3.badfilter-id", cfg + "/complete", lambda: _C04.rule_badfilter_set_complete(b4c, F, cfg))
         from . import C03 as _C03
         b3 = run.borrow("C03", only=r"websocket-scheme|initiator-required",
                         why="a rule indexed under `https` / its domain hash must not match requests that lack that token")
